@@ -26,7 +26,7 @@ def parseEvent (w : String) : Option Event :=
 
 def showSt : St → String
   | .notLaunched => "N" | .waiting => "W" | .running false => "R" | .running true => "C"
-  | .done r => "D:" ++ r.name | .skipped => "S" | .cancelled => "X" | .vanished => "V"
+  | .done r => "D:" ++ r.name | .skipped => "S" | .cancelled => "X"
 
 def showMain : Main → String
   | .top => "top" | .waitSerial => "waitSerial" | .final => "final" | .finished => "finished"
